@@ -437,13 +437,22 @@ func runKV(c KVCase, o *Obs) error {
 			o.Class("diff")
 		case "trace":
 			e, ok := h.model[kn]
-			if !ok || e.Tomb != 0 {
+			if !ok {
 				continue
 			}
 			var times []int64
 			first := true
 			err := h.db.TraceHistory(ctx, kn, time.Time{}, func(when time.Time, value interface{}) (bool, error) {
 				v := fmt.Sprint(value)
+				if first && e.Tomb != 0 {
+					// a tombstoned key: whatever is yielded starts at the tombstone that is kept
+					if !(value == nil || v == "") || when.Unix() != e.Tomb {
+						return false, fmt.Errorf("history of a tombstoned key starts at (%d,%#v), the kept tombstone is at %d", when.Unix(), value, e.Tomb)
+					}
+					first = false
+					times = append(times, when.Unix())
+					return true, nil
+				}
 				if first {
 					if v != e.Val {
 						return false, fmt.Errorf("history starts at %s, the current value is %s", v, e.Val)
@@ -452,8 +461,10 @@ func runKV(c KVCase, o *Obs) error {
 				wasFirst := first
 				first = false
 				_ = wasFirst
-				if value == nil {
-					// a tombstone that was committed for the key shows up as (its time, nil)
+				if value == nil || (v == "" && allTombs[kn][when.Unix()]) {
+					// a tombstone that was committed for the key shows up as (its time, nil), or
+					// as the zero value of the value type ("" for strings; values Set by the
+					// generator are never empty)
 					if !first && allTombs[kn][when.Unix()] {
 						times = append(times, when.Unix())
 						return true, nil
@@ -469,8 +480,11 @@ func runKV(c KVCase, o *Obs) error {
 			if err != nil {
 				return fmt.Errorf("%s: TraceHistory(%s): %v", where, kn, err)
 			}
-			if len(times) == 0 {
+			if len(times) == 0 && e.Tomb == 0 {
 				return fmt.Errorf("%s: TraceHistory(%s) yields nothing although the key is live", where, kn)
+			}
+			if e.Tomb != 0 {
+				o.Class("trace-of-tombstoned-key")
 			}
 			for j := 1; j < len(times); j++ {
 				if times[j] >= times[j-1] {
